@@ -57,4 +57,12 @@ def finish(ctx, prop, viol, known, other, runner, coverage, assumptions, level="
     coverage["known_findings_reproduced"] = {fid: n for fid, (kf, n) in seenk.items()}
     coverage["rejections_of_other_properties"] = len(other)
     ctx.write_evidence(level, coverage, assumptions, len(viol))
+    # vacuity guard: the properties speak about statements gosk ACCEPTS.  If the tree under test reports a diagnostic for every one
+    # of the programs (e.g. it logs an error for every statement while still assembling it), nothing was judged and "no violation"
+    # would mean nothing: that is a failure of the check to decide (exit 2), not a verdict.  Never the case on the unchanged tree.
+    if rc == 0 and runner is not None and getattr(runner, "cases", None) and getattr(runner, "results", None):
+        from vlib import is_diagnosed, Machinery
+        hooked = [c for c in runner.cases if c["id"] in runner.results and not c["job"].get("notrace")]
+        if len(hooked) >= 20 and all(is_diagnosed(runner.results[c["id"]][-1]) for c in hooked):
+            raise Machinery("vacuous run: every one of the %d programs ended with a diagnostic on this tree, so no accepted statement was judged" % len(hooked))
     return rc
